@@ -4,8 +4,9 @@
    a twiddle table tw k t (= omega^(k t), omega = exp(-2 pi i / nfft)), window samples w t and the exponential
    window we t are witness inputs; reciprocals (1/n, 1/(fs sum w^2), 1/K) are parameters of the function-level
    model and are computed with the carrier's division in the list-level wrappers.  Definitions only. *)
-From Coq Require Import List Arith Bool Lia.
-From PyOMA.Base Require Import Carrier Cplx.
+From Coq Require Import List Arith Bool Lia ZArith QArith Qcanon String.
+From Bignums Require Import BigZ.
+From PyOMA.Base Require Import Carrier Cplx Show.
 Import ListNotations.
 
 Section Spectra.
@@ -77,13 +78,21 @@ Definition nsegs (Ndat m nov:nat) : nat := ((Ndat - nov) / (m - nov))%nat.
 Definition sig_of (Yl:list (list R)) : rsig := fun a t => ent K Yl a t.
 (* twiddle table from the list of the n powers omega^0 .. omega^(n-1): tw k t = omega^((k t) mod n) *)
 Definition tw_of (twl:list CR) (n:nat) : nat->nat->CR := fun k t => lget (COps K) twl ((k*t) mod n)%nat.
+(* the same table, materialised once for lines k < nl and samples t < n *)
+Definition tw_tab (twl:list CR) (n nl:nat) : nat->nat->CR :=
+  let T := tab2 nl n (tw_of twl n) in fun k t => ent (COps K) T k t.
+(* segment spectra of nch channels, tabulated once: per segment the mean is computed once, the windowed mean-removed
+   samples are tabulated, then every line is a sum over that table (same function as [stft], see P_spectra.stft_tab_entry) *)
+Definition seg_tab (w:nat->R) invm (m off:nat) (y:nat->R) : list R :=
+  let mu := seg_mean invm m off y in tab m (fun t => w t * (y (off+t)%nat - mu)).
 Definition stft_tab tw w invm m step (nch nseg nl:nat) (Y:rsig) : list (list (list CR)) :=
-  map (fun i => tab2 nseg nl (fun s k => stft tw w invm m step (Y i) s k)) (seq 0 nch).
+  map (fun i => map (fun s => let xs := seg_tab w invm m (s*step) (Y i) in
+                               tab nl (fun k => csum m (fun t => cscal K (lget K xs t) (tw k t)))) (seq 0 nseg)) (seq 0 nch).
 Definition look3 (T:list (list (list CR))) (i s k:nat) : CR := ent (COps K) (nth i T []) s k.
 
 Definition sd_per_l (twl:list CR) (wl:list R) (fs:R) (n nov Ndat nall nref:nat) (Yl Yrefl:list (list R))
   : list (list (list CR)) :=
-  let tw := tw_of twl n in let w := lget K wl in
+  let tw := tw_tab twl n (nlines n) in let w := lget K wl in
   let step := (n - nov)%nat in let nseg := nsegs Ndat n nov in
   let invn := 1 / ofnat n in
   let scale := 1 / (fs * sumn K n (fun t => w t * w t)) in
@@ -103,7 +112,7 @@ Definition cor_of_l tw (we:nat->R) invn (n:nat) (P:nat->CR) : list CR :=
 Definition sd_cor_l (twl:list CR) (wel:list R) (n Ndat nall nref:nat) (Yl Yrefl:list (list R))
   : option (list (list (list CR))) :=
   if negb (Nat.even n) then None else
-  let tw := tw_of twl n in let we := lget K wel in
+  let tw := tw_tab twl n (nlines n) in let we := lget K wel in
   let m := (n/2)%nat in let nseg := nsegs Ndat m 0 in
   let invm := 1 / ofnat m in let invn := 1 / ofnat n in let invK := 1 / ofnat nseg in
   let nl := nlines n in
@@ -130,9 +139,84 @@ Arguments cor_of {R} K tw we invn n P k.
 Arguments ones {R} K.
 Arguments sd_cor {R} K tw we invm invn invK n nseg Y Yref.
 Arguments freq_at {R} K fs n k. Arguments freq_grid {R} K fs n.
-Arguments sig_of {R} K Yl. Arguments tw_of {R} K twl n.
+Arguments sig_of {R} K Yl. Arguments tw_of {R} K twl n. Arguments tw_tab {R} K twl n nl.
+Arguments seg_tab {R} K w invm m off y.
 Arguments stft_tab {R} K tw w invm m step nch nseg nl Y.
 Arguments look3 {R} K T i s k.
 Arguments sd_per_l {R} K twl wl fs n nov Ndat nall nref Yl Yrefl.
 Arguments cor_of_l {R} K tw we invn n P.
 Arguments sd_cor_l {R} K twl wel n Ndat nall nref Yl Yrefl.
+
+(* ================= two-carrier evaluator (speed only) =================
+   The sums of the model use ring operations only, so they can be evaluated in any ring K1 that embeds into the
+   field K2 by phi; the non-ring factors (1/(fs sum w^2), 1/K) are applied in K2.  With K1 = K2, phi = id this is
+   sd_per_l / sd_cor_l entry by entry (P_spectra.sd_per_x_id, sd_cor_x_id); the harness instantiates K1 with exact dyadic
+   numbers over Bignums integers (DyOps below: every witness float and every short-dyadic sample is a dyadic number,
+   and 1/n is dyadic for n a power of two) and compares both evaluators exactly on the small cases of every run. *)
+Section TwoCarrier.
+Variables (R1 R2:Type) (K1:Ops R1) (K2:Ops R2) (phi:R1->R2).
+Definition cphi (z:C R1) : C R2 := (phi (cre z), phi (cim z)).
+Definition sd_per_x (twl:list (C R1)) (wl:list R1) (invn1:R1) (fs:R2) (n nov Ndat nall nref:nat) (Yl Yrefl:list (list R1))
+  : list (list (list (C R2))) :=
+  let tw := tw_tab K1 twl n (nlines n) in let w := lget K1 wl in
+  let step := (n - nov)%nat in let nseg := nsegs Ndat n nov in
+  let scale := odiv K2 (o1 K2) (omul K2 fs (phi (sumn K1 n (fun t => omul K1 (w t) (w t))))) in
+  let invK := odiv K2 (o1 K2) (ofnat K2 nseg) in
+  let nl := nlines n in
+  let TA := stft_tab K1 tw w invn1 n step nall nseg nl (sig_of K1 Yl) in
+  let TR := stft_tab K1 tw w invn1 n step nref nseg nl (sig_of K1 Yrefl) in
+  map (fun i => tab2 nref nl (fun j k =>
+         cscal K2 (coef_of K2 scale invK n k) (cphi (csd_of K1 (look3 K1 TA) (look3 K1 TR) (fun _ => o1 K1) nseg i j k))))
+      (seq 0 nall).
+Definition sd_cor_x (twl:list (C R1)) (wel:list R1) (invm1 invn1:R1) (n Ndat nall nref:nat) (Yl Yrefl:list (list R1))
+  : option (list (list (list (C R2)))) :=
+  if negb (Nat.even n) then None else
+  let tw := tw_tab K1 twl n (nlines n) in let we := lget K1 wel in
+  let m := (n/2)%nat in let nseg := nsegs Ndat m 0 in
+  let invK := odiv K2 (o1 K2) (ofnat K2 nseg) in
+  let nl := nlines n in
+  let TA := stft_tab K1 tw (ones K1) invm1 m m nall nseg nl (sig_of K1 Yl) in
+  let TR := stft_tab K1 tw (ones K1) invm1 m m nref nseg nl (sig_of K1 Yrefl) in
+  Some (map (fun i => map (fun j =>
+          map (fun z => cscal K2 invK (cphi z))
+              (cor_of_l K1 tw we invn1 n (csd_of K1 (look3 K1 TA) (look3 K1 TR) (fun k => omul K1 (dbl K1 n k) invm1) nseg i j)))
+        (seq 0 nref)) (seq 0 nall)).
+End TwoCarrier.
+Arguments cphi {R1 R2} phi z.
+Arguments sd_per_x {R1 R2} K1 K2 phi twl wl invn1 fs n nov Ndat nall nref Yl Yrefl.
+Arguments sd_cor_x {R1 R2} K1 K2 phi twl wel invm1 invn1 n Ndat nall nref Yl Yrefl.
+
+(* exact dyadic numbers m * 2^(-e) over Bignums integers (ring operations only; no division in this carrier:
+   odiv/oinv are never called by the two-carrier evaluator and return their first argument) *)
+Definition dy := (bigZ * Z)%type.
+Definition dy_add (x y:dy) : dy := let (m1,e1) := x in let (m2,e2) := y in
+  match (e1 ?= e2)%Z with
+  | Eq => (BigZ.add m1 m2, e1)
+  | Lt => (BigZ.add (BigZ.shiftl m1 (BigZ.of_Z (e2-e1))) m2, e2)
+  | Gt => (BigZ.add m1 (BigZ.shiftl m2 (BigZ.of_Z (e1-e2))), e1)
+  end.
+Definition dy_mul (x y:dy) : dy := (BigZ.mul (fst x) (fst y), (snd x + snd y)%Z).
+Definition dy_opp (x:dy) : dy := (BigZ.opp (fst x), snd x).
+Definition DyOps : Ops dy :=
+  {| o0 := (BigZ.zero, 0%Z); o1 := (BigZ.one, 0%Z); oadd := dy_add; omul := dy_mul; osub := fun x y => dy_add x (dy_opp y);
+     oopp := dy_opp; odiv := fun x _ => x; oinv := fun x => x |}.
+(* reader: n / 2^e ;  embedding into Qc (e >= 0 for every value the evaluator produces from such readers) *)
+Definition dyq (n:Z) (e:Z) : dy := (BigZ.of_Z n, e).
+Definition dy2q (x:dy) : Q :=
+  match snd x with
+  | Zpos e => BigZ.to_Z (fst x) # Pos.shiftl 1 (Npos e)
+  | Z0 => BigZ.to_Z (fst x) # 1
+  | Zneg e => Z.shiftl (BigZ.to_Z (fst x)) (Zpos e) # 1
+  end.
+(* plain (non-canonical) rationals for the few scaling operations of the two-carrier evaluator *)
+Definition QOps_spectra : Ops Q :=
+  {| o0 := 0%Q; o1 := 1%Q; oadd := Qplus; omul := Qmult; osub := Qminus; oopp := Qopp; odiv := Qdiv; oinv := Qinv |}.
+
+(* output: every value is printed as floor(x * 2^90) (the comparison with the implementation is at relative 1e-9 of the
+   largest entry, entries are O(1e-4 .. 1e4); full-length rationals of ~300 digits each would make the result string
+   too long for coqc's reader) *)
+Definition showQr (x:Q) : string := showZ (Z.div (Z.shiftl (Qnum x) 90) (Zpos (Qden x))).
+Definition showCr (z:Q*Q) : string := (showQr (fst z) ++ "," ++ showQr (snd z))%string.
+Definition showS3r (res:list (list (list (Q*Q)))) : string := showL (showL (showL showCr " ") ";") "|" res.
+Definition qc3 (res:list (list (list (Qc*Qc)))) : list (list (list (Q*Q))) :=
+  map (map (map (fun z => (this (fst z), this (snd z))))) res.
